@@ -25,14 +25,14 @@ structure Good (s : St) : Prop where
 
 variable {R : Cfg}
 
-theorem recvs_of (hm : R.m = .asCoded) {e : Eh} (h : e = .noerr ∨ e = .haserr) : recvs R.m e = true := by
-  rw [hm]; exact (recvs_asCoded e).mpr h
-theorem offPer_of (hm : R.m = .asCoded) {e : Eh} (h : e = .hasperr) : offPer R.m e = true := by
-  rw [hm]; exact (offPer_asCoded e).mpr h
-theorem offErr_of (hm : R.m = .asCoded) {e : Eh} (h : e = .hasperr) : offErr R.m e = true := by
-  rw [hm]; exact (offErr_asCoded e).mpr (Or.inr h)
-theorem closes_of (hm : R.m = .asCoded) {e : Eh} (h : e = .hasperr) : closes R.m e = true := by
-  rw [hm]; exact (closes_asCoded e).mpr (Or.inr (Or.inr h))
+theorem recvs_of (hm : R.m = .asCoded R.closeSel) {e : Eh} (h : e = .noerr ∨ e = .haserr) : recvs R.m e = true := by
+  rw [hm]; exact (recvs_asCoded _ e).mpr h
+theorem offPer_of (hm : R.m = .asCoded R.closeSel) {e : Eh} (h : e = .hasperr) : offPer R.m e = true := by
+  rw [hm]; exact (offPer_asCoded _ e).mpr h
+theorem offErr_of (hm : R.m = .asCoded R.closeSel) {e : Eh} (h : e = .hasperr) : offErr R.m e = true := by
+  rw [hm]; exact (offErr_asCoded _ e).mpr (Or.inr h)
+theorem closes_of (hm : R.m = .asCoded R.closeSel) {e : Eh} (h : e = .hasperr) : closes R.m e = true := by
+  rw [hm]; exact (closes_asCoded _ e).mpr (Or.inr (Or.inr h))
 
 /-- a thread at a program counter that never blocks has a fault-free step -/
 macro "nb_step" hi:ident : tactic => `(tactic| first
@@ -49,7 +49,7 @@ macro "nb_step" hi:ident : tactic => `(tactic| first
   | exact ⟨_, Step.clBody _ _ $hi⟩)
 
 /-- the `select` after a compaction's storage action always has an enabled arm -/
-theorem setErr_step (hm : R.m = .asCoded) (s : St) (g : Good s) (b : Bool) (w : Option Nat) (ok c : Bool)
+theorem setErr_step (hm : R.m = .asCoded R.closeSel) (s : St) (g : Good s) (b : Bool) (w : Option Nat) (ok c : Bool)
     (hb : s.bg b = .run w (.setErr ok c)) : ∃ t, Step R false s t := by
   cases he : s.eh with
   | noerr => exact ⟨_, Step.bgSetErr s b w ok c hb (recvs_of hm (Or.inl he))⟩
@@ -66,7 +66,7 @@ theorem setErr_step (hm : R.m = .asCoded) (s : St) (g : Good s) (b : Bool) (w : 
     exact ⟨_, Step.bgExit s b w _ hb (Or.inl ⟨hc, by simp, by simp⟩)⟩
 
 /-- … also with a corruption error in hand -/
-theorem setErrC_step (hm : R.m = .asCoded) (s : St) (g : Good s) (b : Bool) (w : Option Nat) (c : Bool)
+theorem setErrC_step (hm : R.m = .asCoded R.closeSel) (s : St) (g : Good s) (b : Bool) (w : Option Nat) (c : Bool)
     (hb : s.bg b = .run w (.setErrC c)) : ∃ t, Step R false s t := by
   cases he : s.eh with
   | noerr => exact ⟨_, Step.bgSetErrCorrupt s b w c hb (recvs_of hm (Or.inl he))⟩
@@ -80,7 +80,7 @@ theorem setErrC_step (hm : R.m = .asCoded) (s : St) (g : Good s) (b : Bool) (w :
     exact ⟨_, Step.bgExit s b w _ hb (Or.inl ⟨hc, by simp, by simp⟩)⟩
 
 /-- whoever holds `compCommitLk` can move -/
-theorem clk_step (hm : R.m = .asCoded) (s : St) (g : Good s) (hc : s.clk = true) : ∃ t, Step R false s t := by
+theorem clk_step (hm : R.m = .asCoded R.closeSel) (s : St) (g : Good s) (hc : s.clk = true) : ∃ t, Step R false s t := by
   have h := g.r.clkI
   rw [hc] at h; simp only [b2n_true] at h
   by_cases h1 : 0 < tot clkW s.ws
@@ -112,7 +112,7 @@ theorem clk_step (hm : R.m = .asCoded) (s : St) (g : Good s) (hc : s.clk = true)
       | _ => simp [hmc] at h3
 
 /-- a compaction in progress can move -/
-theorem bg_run_step (hm : R.m = .asCoded) (s : St) (g : Good s) (b : Bool) (w : Option Nat) (ph : BPh)
+theorem bg_run_step (hm : R.m = .asCoded R.closeSel) (s : St) (g : Good s) (b : Bool) (w : Option Nat) (ph : BPh)
     (hb : s.bg b = .run w ph) :
     ∃ t, Step R false s t := by
   cases ph with
@@ -127,7 +127,7 @@ theorem bg_run_step (hm : R.m = .asCoded) (s : St) (g : Good s) (b : Bool) (w : 
   | commit => exact ⟨_, Step.bgCommitOk s b w hb⟩
   | ackW => exact ⟨_, Step.bgAck s b w hb⟩
 
-theorem alt_he (hm : R.m = .asCoded) (s : St) (h : Alt s) : offErr R.m s.eh = true ∨ s.closed = true := by
+theorem alt_he (hm : R.m = .asCoded R.closeSel) (s : St) (h : Alt s) : offErr R.m s.eh = true ∨ s.closed = true := by
   rcases h with h | h
   · exact Or.inr h
   · exact Or.inl (offErr_of hm h)
@@ -143,7 +143,7 @@ theorem bg_parked_alt (s : St) (g : Good s) (b : Bool) (hb : s.bg b = .parked) :
   | true => exact g.a.2.2.2.2.2.1 (g.a.2.2.2.2.1 (by simpa [St.bg] using hb))
 
 /-- a thread sending a compaction command can move, or the goroutine it talks to can -/
-theorem cwSend_step (hm : R.m = .asCoded) (s : St) (g : Good s) (i : Nat) (b : Bool) (site : Site) (lg : Bool)
+theorem cwSend_step (hm : R.m = .asCoded R.closeSel) (s : St) (g : Good s) (i : Nat) (b : Bool) (site : Site) (lg : Bool)
     (hi : s.ws[i]? = some (.cwSend b site lg)) : ∃ t, Step R false s t := by
   cases hb : s.bg b with
   | idle =>
@@ -158,14 +158,14 @@ theorem cwSend_step (hm : R.m = .asCoded) (s : St) (g : Good s) (i : Nat) (b : B
   | exited => exact ⟨_, Step.cwSendErr s i b site lg hi (alt_he hm s (bg_exited_alt s g b hb))⟩
   | parked => exact ⟨_, Step.cwSendErr s i b site lg hi (alt_he hm s (bg_parked_alt s g b hb))⟩
 
-theorem cwAck_step (hm : R.m = .asCoded) (s : St) (g : Good s) (i : Nat) (b : Bool) (site : Site) (lg : Bool)
+theorem cwAck_step (hm : R.m = .asCoded R.closeSel) (s : St) (g : Good s) (i : Nat) (b : Bool) (site : Site) (lg : Bool)
     (hi : s.ws[i]? = some (.cwAck b site lg)) : ∃ t, Step R false s t := by
   rcases g.w i b site lg hi with ⟨ph, hb⟩ | ha
   · exact bg_run_step hm s g b (some i) ph hb
   · exact ⟨_, Step.cwAckErr s i b site lg hi (alt_he hm s ha)⟩
 
 /-- whoever holds `tr.lk` can move -/
-theorem trlk_step (hm : R.m = .asCoded) (s : St) (g : Good s) (hl : s.trlk = true) : ∃ t, Step R false s t := by
+theorem trlk_step (hm : R.m = .asCoded R.closeSel) (s : St) (g : Good s) (hl : s.trlk = true) : ∃ t, Step R false s t := by
   have h := g.r.trlkI
   rw [hl] at h; simp only [b2n_true] at h
   obtain ⟨i, p, hi, hp⟩ := exists_of_tot_pos trlkW s.ws (by omega)
@@ -178,7 +178,7 @@ theorem trlk_step (hm : R.m = .asCoded) (s : St) (g : Good s) (hl : s.trlk = tru
   | cwAck b site lg => exact cwAck_step hm s g i b site lg hi
   | _ => first | (simp [trlkW] at hp; done) | nb_step hi
 
-theorem srSet_step (hm : R.m = .asCoded) (s : St) (g : Good s) (i : Nat) (hi : s.ws[i]? = some .srSet) :
+theorem srSet_step (hm : R.m = .asCoded R.closeSel) (s : St) (g : Good s) (i : Nat) (hi : s.ws[i]? = some .srSet) :
     ∃ t, Step R false s t := by
   cases he : s.eh with
   | noerr => exact ⟨_, Step.srSend s i hi (recvs_of hm (Or.inl he))⟩
@@ -189,7 +189,7 @@ theorem srSet_step (hm : R.m = .asCoded) (s : St) (g : Good s) (i : Nat) (hi : s
 
 theorem b2n_pos (b : Bool) (h : 0 < b2n b) : b = true := by cases b <;> simp [b2n] at h ⊢
 
-theorem lockTr_or (hm : R.m = .asCoded) (s : St) (g : Good s) (hstep : s.trlk = false → ∃ t, Step R false s t) :
+theorem lockTr_or (hm : R.m = .asCoded R.closeSel) (s : St) (g : Good s) (hstep : s.trlk = false → ∃ t, Step R false s t) :
     ∃ t, Step R false s t := by
   cases hl : s.trlk with
   | false => exact hstep hl
@@ -197,7 +197,7 @@ theorem lockTr_or (hm : R.m = .asCoded) (s : St) (g : Good s) (hstep : s.trlk = 
 
 /-- whoever holds the token can move — or it is the user's transaction, `compactionError` in its
 persistent-error loop, or `Close` -/
-theorem tok_step (hm : R.m = .asCoded) (s : St) (g : Good s) (ht : s.tok = true) :
+theorem tok_step (hm : R.m = .asCoded R.closeSel) (s : St) (g : Good s) (ht : s.tok = true) :
     (∃ t, Step R false s t) ∨ (s.trOpen = true ∧ s.trUser = true) ∨
     (s.ehTok = true ∧ (s.eh = .hasperr ∨ s.eh = .closing)) ∨ s.closeTok = true := by
   have h := g.r.tokI
@@ -242,7 +242,7 @@ theorem tok_step (hm : R.m = .asCoded) (s : St) (g : Good s) (ht : s.tok = true)
       · exact Or.inr (Or.inr (Or.inr (b2n_pos _ (by omega))))
 
 /-- the `select` on `writeLockC`: some arm is enabled, or the token holder can move -/
-theorem sel_step (hm : R.m = .asCoded) (s : St) (g : Good s) (i : Nat) (p q : Pc) (hi : s.ws[i]? = some p)
+theorem sel_step (hm : R.m = .asCoded R.closeSel) (s : St) (g : Good s) (i : Nat) (p q : Pc) (hi : s.ws[i]? = some p)
     (hq : selNext p = some q) :
     (∃ t, Step R false s t) ∨ (s.trOpen = true ∧ s.trUser = true) := by
   cases ht : s.tok with
@@ -266,7 +266,7 @@ theorem close_closed (s : St) (g : Good s) (i : Nat) (p : Pc) (hi : s.ws[i]? = s
 
 /-- **progress**: while a call is pending, a fault-free step is enabled, unless everybody waits for the
 user to commit or discard the open transaction -/
-theorem progress (hm : R.m = .asCoded) (s : St) (g : Good s) (i : Nat) (p : Pc) (hi : s.ws[i]? = some p)
+theorem progress (hm : R.m = .asCoded R.closeSel) (s : St) (g : Good s) (i : Nat) (p : Pc) (hi : s.ws[i]? = some p)
     (hp : pending p = true) :
     (∃ t, Step R false s t) ∨ (s.trOpen = true ∧ s.trUser = true) := by
   cases p with
@@ -296,7 +296,9 @@ theorem progress (hm : R.m = .asCoded) (s : St) (g : Good s) (i : Nat) (p : Pc) 
       · exact Or.inl h
       · exact Or.inr h
       · exact Or.inl ⟨_, Step.ehClose s (closes_of hm h) hcl⟩
-      · exact Or.inl ⟨_, Step.ehTake s h ht⟩
+      · cases hk : R.closeSel with
+        | false => exact Or.inl ⟨_, Step.ehTake s h ht (by rw [hm, hk]; rfl)⟩
+        | true => exact Or.inl ⟨_, Step.clAcqKept s i hi h (by rw [hm, hk]; rfl) hk⟩
       · exfalso
         have h1 := le_tot clPreW s.ws i _ hi
         have h2 := g.c.2.2
